@@ -16,7 +16,7 @@ tvars == <<l, verdicts>>
 
 SeqSet(s) == {s[i] : i \in 1..Len(s)}
 TreeOf(r) == [top |-> SeqSet(r.top), kids |-> [d \in DirNames |-> SeqSet(r.kids[d])]]
-ArgsOfRec(r) == [i \in 1..Len(r.args) |-> [path |-> r.args[i].path, abs |-> r.args[i].abs = "1", dots |-> r.args[i].dots = "1"]]
+ArgsOfRec(r) == [i \in 1..Len(r.args) |-> [path |-> r.args[i].path, abs |-> r.args[i].abs = "1", dots |-> r.args[i].dots = "1", via |-> r.args[i].via]]
 
 Verdict(r) ==
   LET t == TreeOf(r)
